@@ -448,3 +448,48 @@ def r11(rr, repo):
     looks = [n for n in ast.walk(init) if isinstance(n, ast.Attribute) and (n.attr in ('base', 'owndata', 'OWNDATA') or (n.attr == 'copy' and 'image' in U(n.value)))]
     rr.ob('Frame.__init__ establishes who owns the memory of a read-only array before adopting it (inspects .base / OWNDATA, or copies)', bool(looks), mod, init,
           witness=f'{len(caches)} caches rest on the write flag alone; references to .base / owndata / image.copy() in __init__: {[U(n) for n in looks] or "none"}', key='ro-view-of-writable-base')
+
+
+@rule('C10.R12', "a conversion cache holds a view of the format it is named after: whatever is stored into a frame's ro_rgb / ro_bgr / ro_gray slot (on itself or on another frame) was built as Frame(.., .., '<that format>') "
+                 "- or read from that very slot; a frame of another format in the slot is handed out later as the RGB / BGR / GRAY view")
+def r12(rr, repo):
+    mod, cls = repo.find(f'{FR}::Frame')
+    SLOT = {'__ro_rgb': 'RGB', '__ro_bgr': 'BGR', '__ro_gray': 'GRAY', '_Frame__ro_rgb': 'RGB', '_Frame__ro_bgr': 'BGR', '_Frame__ro_gray': 'GRAY'}
+    n = 0
+    def fmt_of_frame_call(c):
+        if isinstance(c, ast.Call) and U(c.func) == 'Frame':
+            a = c.args[2] if len(c.args) >= 3 else next((k.value for k in c.keywords if k.arg == 'format'), None)
+            return q.const_str(a) if a is not None else None
+        return None
+    def same_slot_read(v, slot):
+        fmt = SLOT[slot]
+        return any((isinstance(x, ast.Attribute) and SLOT.get(x.attr) == fmt) or (isinstance(x, ast.Constant) and isinstance(x.value, str) and SLOT.get(x.value) == fmt) for x in ast.walk(v))
+    for fn in [x for x in ast.walk(cls) if isinstance(x, (ast.FunctionDef, ast.AsyncFunctionDef))]:
+        for st in walk_scope(fn):
+            stores = []
+            if isinstance(st, ast.Assign):
+                stores = [(t, st.value, st) for t in st.targets if isinstance(t, ast.Attribute) and t.attr in SLOT]
+            elif isinstance(st, ast.Expr) and isinstance(st.value, ast.Call) and U(st.value.func) == 'setattr' and len(st.value.args) == 3 and q.const_str(st.value.args[1]) in SLOT:
+                stores = [(ast.Attribute(value=st.value.args[0], attr=st.value.args[1].value), st.value.args[2], st)]
+            for t, v, node in stores:
+                want = SLOT[t.attr]
+                if isinstance(v, ast.Constant) and v.value is None:
+                    continue          # clearing a slot
+                n += 1
+                if isinstance(v, ast.Name) and v.id not in ('self',):
+                    binds = [b.value for b in walk_scope(fn) if isinstance(b, ast.Assign) and any(isinstance(x, ast.Name) and x.id == v.id for x in b.targets)] + \
+                            [b.value for b in walk_scope(fn) if isinstance(b, ast.NamedExpr) and b.target.id == v.id]
+                    kinds = [('frame', fmt_of_frame_call(b)) if fmt_of_frame_call(b) is not None or (isinstance(b, ast.Call) and U(b.func) == 'Frame') else ('slot', want) if same_slot_read(b, t.attr) else ('other', U(b)[:40]) for b in binds]
+                elif isinstance(v, ast.Name) and v.id == 'self':
+                    # the frame itself: right only where it is known to have that format (a positive test `<format> == '<want>'` governs the store)
+                    known = any(pol and isinstance(g, ast.Compare) and len(g.ops) == 1 and isinstance(g.ops[0], ast.Eq) and q.const_str(g.comparators[0]) == want for g, pol in q.guards_of(node, stop=fn))
+                    kinds = [('frame', want)] if known else [('other', 'self')]
+                else:
+                    kinds = [('frame', fmt_of_frame_call(v))] if isinstance(v, ast.Call) and U(v.func) == 'Frame' else [('other', U(v)[:40])]
+                ok = bool(kinds) and all(k in ('frame', 'slot') and f == want for k, f in kinds)
+                known_bad = any(k == 'frame' and f != want for k, f in kinds) or any(k == 'other' and f in ('self', 'frame', 'src', 'source') for k, f in kinds)
+                if ok or known_bad:
+                    rr.ob(f"what is stored into a {want} cache slot is a frame built with format '{want}'", ok, mod, node, witness=f'{U(t)} = {U(v)[:60]}: {kinds}', key=f'slot-format|{qualname(fn)}|{U(t)}')
+                else:
+                    rr.unresolved(f"cannot tell the format of what is stored into the {want} cache slot", mod, node, witness=f'{U(t)} = {U(v)[:60]}: {kinds}', key=f'slot-format|{qualname(fn)}|{U(t)}')
+    rr.floor('stores into conversion cache slots', n, 5, mod, cls)
